@@ -85,6 +85,13 @@ pub struct Shared {
     pub gate_msgs: bool,
     /// every output() call fails (unreachable destination)
     pub fail_outputs: bool,
+    /// multi-thread stress mode: deliveries are not gated by the explorer but delayed by a
+    /// pseudo-random real time of up to this many microseconds (0 = explorer-gated)
+    pub auto_delay_us: u64,
+    pub auto_seed: u64,
+    /// fail the k-th RPC of a kind in auto mode
+    pub auto_fail: Option<(RpcKind, usize)>,
+    pub auto_kind_count: Mutex<HashMap<RpcKind, usize>>,
 }
 
 impl Shared {
@@ -126,7 +133,30 @@ impl GatedClient {
             }
             r[id] = RpcRec { t_issue: t, t_release: None, t_done: None, comp: self.comp, from: self.me, to, kind, fate: "pending", result: None };
         }
-        if kind == RpcKind::Msg && !self.shared.gate_msgs {
+        if self.shared.auto_delay_us > 0 {
+            // stress mode: real, pseudo-random delay instead of an explorer decision
+            let h = (id as u64).wrapping_mul(0x9e3779b97f4a7c15) ^ self.shared.auto_seed;
+            let us = (h >> 17) % self.shared.auto_delay_us;
+            if kind != RpcKind::Msg || us % 4 == 0 {
+                tokio::time::sleep(std::time::Duration::from_micros(us)).await;
+            }
+            let fail = {
+                let mut c = self.shared.auto_kind_count.lock().unwrap();
+                let e = c.entry(kind).or_insert(0);
+                let k = *e;
+                *e += 1;
+                self.shared.auto_fail == Some((kind, k))
+            };
+            let t = self.shared.tick();
+            {
+                let mut r = self.shared.rpcs.lock().unwrap();
+                r[id].t_release = Some(t);
+                r[id].fate = if fail { "failed" } else { "delivered" };
+            }
+            if fail {
+                return (id, Err(ClientErr::Injected));
+            }
+        } else if kind == RpcKind::Msg && !self.shared.gate_msgs {
             self.shared.rpcs.lock().unwrap()[id].fate = "delivered";
         } else {
             self.shared.pending.lock().unwrap().push(Pending { id, comp: self.comp, from: self.me, to, kind, gate: tx });
@@ -359,6 +389,10 @@ pub fn explore(sc: &Scenario) -> RunRecord {
             msg_calls: AtomicUsize::new(0),
             gate_msgs: sc.gate_msgs,
             fail_outputs: sc.fail_outputs,
+            auto_delay_us: 0,
+            auto_seed: 0,
+            auto_fail: None,
+            auto_kind_count: Mutex::new(HashMap::new()),
         });
         let n_parties = sc.policies.iter().map(|c| c.len()).max().unwrap_or(0);
         let sems: Vec<Arc<Semaphore>> = (0..n_parties).map(|_| Arc::new(Semaphore::new(sc.concurrency))).collect();
@@ -564,6 +598,135 @@ pub fn explore(sc: &Scenario) -> RunRecord {
             max_open_runs: max_open,
         }
     })
+}
+
+/// Stress mode: the same scenario on a multi-thread runtime with real (pseudo-random, sub-millisecond)
+/// delays in every RPC; injections with `When::Step(k)` fire after k * 700 microseconds. The run is
+/// judged only if it reaches quiescence (no event for 400 ms, no pending work) before the watchdog;
+/// otherwise it is inconclusive.
+pub fn explore_mt(sc: &Scenario, seed: u64) -> RunRecord {
+    let rt = tokio::runtime::Builder::new_multi_thread().worker_threads(4).enable_time().build().expect("runtime");
+    std::thread::sleep(std::time::Duration::from_millis(5));
+    let base_threads = thread_count();
+    let rec = rt.block_on(async move {
+        let shared = Arc::new(Shared {
+            clock: AtomicU64::new(0),
+            handles: Mutex::new(HashMap::new()),
+            pending: Mutex::new(vec![]),
+            next_id: AtomicUsize::new(0),
+            outputs: Mutex::new(vec![]),
+            rpcs: Mutex::new(vec![]),
+            msg_calls: AtomicUsize::new(0),
+            gate_msgs: false,
+            fail_outputs: sc.fail_outputs,
+            auto_delay_us: 900,
+            auto_seed: seed,
+            auto_fail: sc.fail_rpc,
+            auto_kind_count: Mutex::new(HashMap::new()),
+        });
+        let n_parties = sc.policies.iter().map(|c| c.len()).max().unwrap_or(0);
+        let sems: Vec<Arc<Semaphore>> = (0..n_parties).map(|_| Arc::new(Semaphore::new(sc.concurrency))).collect();
+        let mut actors: Vec<(usize, usize, JoinHandle<()>)> = vec![];
+        for (c, pols) in sc.policies.iter().enumerate() {
+            for p in 0..pols.len() {
+                let (state, handle) = PolicyState::new(GatedBuilder { shared: shared.clone(), comp: c, me: p }, sems[p].clone());
+                shared.handles.lock().unwrap().insert((c, p), handle);
+                actors.push((c, p, tokio::spawn(state.start())));
+            }
+        }
+        let schedule: CallSlot = Arc::new(Mutex::new(vec![]));
+        let injected: CallSlot = Arc::new(Mutex::new(vec![]));
+        let mut rng = ChaCha8Rng::seed_from_u64(seed);
+        // schedules after small random delays
+        let mut order: Vec<(usize, usize)> = vec![];
+        for (c, pols) in sc.policies.iter().enumerate() {
+            for p in 0..pols.len() {
+                if !sc.skip_schedule.contains(&(c, p)) {
+                    order.push((c, p));
+                }
+            }
+        }
+        for i in (1..order.len()).rev() {
+            let j = rng.random_range(0..=i);
+            order.swap(i, j);
+        }
+        let start = std::time::Instant::now();
+        let mut timeline: Vec<(u64, Option<(usize, usize)>, Option<Inject>)> = vec![];
+        for (c, p) in order {
+            timeline.push((rng.random_range(0..1500), Some((c, p)), None));
+        }
+        for (w, inj) in &sc.injections {
+            let at = match w { When::Step(k) => *k as u64 * 700 + rng.random_range(0..600), When::DuringCompile => rng.random_range(2000..6000) };
+            timeline.push((at, None, Some(inj.clone())));
+        }
+        timeline.sort_by_key(|x| x.0);
+        for (at, sched, inj) in timeline {
+            let now = start.elapsed().as_micros() as u64;
+            if at > now {
+                tokio::time::sleep(std::time::Duration::from_micros(at - now)).await;
+            }
+            let extra = thread_count() > base_threads;
+            if let Some((c, p)) = sched {
+                let h = shared.handles.lock().unwrap().get(&(c, p)).cloned().expect("handle");
+                let pol = sc.policies[c][p].clone();
+                spawn_call(&shared, &schedule, "schedule", c, p, 0, extra, async move { h.schedule(pol).await });
+            }
+            if let Some(inj) = inj {
+                do_inject(&shared, &injected, &inj, sc, (at / 700) as usize, extra);
+            }
+        }
+        // quiescence: no event for 400 ms, every spawned call returned or its actor gone
+        let mut quiescent = false;
+        let mut last = shared.clock.load(Ordering::SeqCst);
+        let mut still = 0;
+        let watchdog = std::time::Instant::now();
+        while watchdog.elapsed().as_secs() < 60 {
+            tokio::time::sleep(std::time::Duration::from_millis(20)).await;
+            let now = shared.clock.load(Ordering::SeqCst);
+            if now == last && thread_count() <= base_threads {
+                still += 1;
+                if still >= 20 {
+                    quiescent = true;
+                    break;
+                }
+            } else {
+                still = 0;
+                last = now;
+            }
+        }
+        let mut actor_state = vec![];
+        for (c, p, h) in actors {
+            let finished = h.is_finished();
+            let mut panicked = false;
+            if finished {
+                if let Err(e) = h.await {
+                    panicked = e.is_panic();
+                }
+            } else {
+                h.abort();
+            }
+            actor_state.push((c, p, finished, panicked));
+        }
+        let permits: Vec<usize> = sems.iter().map(|s| s.available_permits()).collect();
+        RunRecord {
+            schedule: schedule.lock().unwrap().clone(),
+            injected: injected.lock().unwrap().clone(),
+            outputs: shared.outputs.lock().unwrap().clone(),
+            rpcs: shared.rpcs.lock().unwrap().clone(),
+            actors: actor_state,
+            permits,
+            msg_calls: shared.msg_calls.load(Ordering::SeqCst),
+            quiescent,
+            steps: 0,
+            branching: vec![],
+            choices: vec![],
+            end: if quiescent { "quiescent (multi-thread)".into() } else { "watchdog (multi-thread)".into() },
+            saw_compile_thread: false,
+            max_open_runs: vec![0; n_parties],
+        }
+    });
+    rt.shutdown_timeout(std::time::Duration::from_millis(200));
+    rec
 }
 
 fn release(shared: &Arc<Shared>, id: usize, how: Release) {
